@@ -40,12 +40,19 @@ CallsOn(o) == {Call("move", o, d, NoAnchor, s) : d \in Disps, s \in Starts}
          \cup {Call("setpos", o, Vector(np), NoAnchor, AutoStart) : np \in NewPos}
          \cup {Call("setori", o, Vector(nr), NoAnchor, AutoStart) : nr \in NewOri}
          \cup {Call("reset", o, Scalar(Zero3), NoAnchor, AutoStart)}
+\* inputs that are EXPRESSIONS over the current state: the displacement / anchor / new position is the position path of an object r of
+\* the tree (the caller passes `r.position`, a live view of r's path, which the operation itself may be changing). Value semantics:
+\* the operation uses the value the expression had when the call was made.
+RefInp(s, r) == [scalar |-> Len(s.path[r].pos) = 1, v |-> s.path[r].pos, ref |-> r]
+RefCallsOn(s, o) == {Call("move", o, RefInp(s, r), NoAnchor, sx) : r \in DOMAIN s.kids, sx \in {AutoStart, IntStart(0)}}
+               \cup {Call("rotate", o, Scalar(Rz90), [kind |-> "vec", scalar |-> Len(s.path[r].pos) = 1, v |-> s.path[r].pos, ref |-> r], AutoStart) : r \in DOMAIN s.kids}
+               \cup {Call("setpos", o, [scalar |-> FALSE, v |-> s.path[r].pos, ref |-> r], NoAnchor, AutoStart) : r \in DOMAIN s.kids}
 Calls1 == CallsOn("o")      \* the per-object call list (the harness substitutes the target)
 
 Init == /\ \E s \in Shapes, n \in 1..MaxInit, sh \in {0, 2} :
              st = [kids |-> KidsOf(s), path |-> [o \in DOMAIN KidsOf(s) |-> InitPath(o, n, sh)]]
         /\ last = [op |-> "init", o |-> "A"]
-Next == \E o \in Objs : \E c \in CallsOn(o) : st' = ApplyPath(st, c) /\ last' = c
+Next == \E o \in Objs : \E c \in CallsOn(o) \cup RefCallsOn(st, o) : st' = ApplyPath(st, c) /\ last' = c
 Spec == Init /\ [][Next]_vars
 View == st
 Bound == TLCGet("level") <= Depth
